@@ -809,6 +809,15 @@ impl KotoVm {
                             _ => KValue::Str(error.to_string().into()),
                         };
 
+                        // The error may have been thrown after some of the frame's registers were
+                        // removed from the stack (e.g. while call arguments were being prepared),
+                        // so ensure that the catching frame has its required number of registers.
+                        let min_frame_registers =
+                            self.register_index(self.frame().required_registers);
+                        if self.registers.len() < min_frame_registers {
+                            self.registers.resize(min_frame_registers, KValue::Null);
+                        }
+
                         self.set_register(recover_register, catch_value);
                         self.set_ip(ip);
                     }
